@@ -106,6 +106,7 @@ def bgzf_block(data):
 
 
 def bgzf(data, blk, eof=True):
+    blk = max(blk, len(data) // 1500 + 1)      # at most ~1500 members per file
     out = b"".join(bgzf_block(data[i:i + blk]) for i in range(0, len(data), blk))
     return out + (EOF_BLOCK if eof else b"")
 
@@ -146,10 +147,10 @@ def decode_file_bytes(raw):
 
 
 def bhash(b):
-    h = 0
-    for x in b:
-        h = (h * 131 + x + 1) % MOD
-    return [len(b), h]
+    """[length, sum of (byte+1), sum of position*(byte+1)] mod MOD — the same fold as Drv/C16.lean `bhash`"""
+    x = np.frombuffer(bytes(b), dtype=np.uint8).astype(np.int64) + 1
+    n = len(x)
+    return [n, int(x.sum() % MOD), int(((np.arange(1, n + 1, dtype=np.int64) * x) % MOD).sum() % MOD)]
 
 
 def view(refs, r):
